@@ -135,6 +135,10 @@ Definition probe_fs : fenv := fun f =>
     Some (fun args => if (length args =? 2)%nat then None else Some 0)
   else None.
 
+(* a builder that has, besides the base set, its own registrations [extra] (plain probes) *)
+Definition ext_fs (extra : list str) : fenv := fun f =>
+  if existsb (list_eqb N.eqb f) extra then Some (fun _ => None) else probe_fs f.
+
 (* ---- observables --------------------------------------------------------------------------- *)
 Definition ekind_code (k : ekind) : N :=
   match k with EUnterminated => 0 | EEmptyStatement => 1 | EMissingFunction => 2 | EFunc c => 3 + c end.
